@@ -12,16 +12,24 @@
    All statements are for EVERY finite sequence of operations over byte-string elements of any
    length ([Forall op_ok ops] only says that elements are lists of bytes), and for every H.
 
-   What is NOT proved (hence the suffix _partial on the root-hash theorems): that the paged node
-   store of cache.go (node ids, pages, page cache + eviction, commit-time re-allocation,
-   (de)serialisation) represents the logical trie of the model for every MemoryConfig.  That layer
-   is compared with the model by the correspondence run only (harness
-   harness/go/crypto/merkletrie/zz_verif_c17_test.go, which found the defect fixed by
-   fixes/C17.patch there). *)
+   The paged node store (cache.go) is modelled in model/MerkleTrieStore.v: nodes by id, the
+   in-memory view and the stored pages, created/deleted bookkeeping, the deferred page load, commit
+   with re-allocation of nodes to fresh ids, evict, reload.  Proved below (theorems C17_store_...): for EVERY
+   page size 0 < npp <= 0x4160, every choice of evicted pages and every re-allocation accepted by
+   [rho_ok], each operation preserves [Abs] (the store unfolds to the logical trie; the STORED
+   PAGES ALONE unfold to the committed trie), Add/Delete/RootHash never hit a missing node, and
+   the eviction rule that was in the code before fixes/C17.patch does lose committed nodes
+   (C17_unfixed_evict_refuted).
+   What is still NOT proved (hence the suffix _partial stays on the root-hash theorems): that the
+   re-allocation chosen by cache.go is always accepted by [rho_ok] and that cache.go writes exactly
+   the pages the model writes (both are checked on every store case of the correspondence run, which
+   compares memory, pages and bookkeeping with the model after every operation), the reuse of
+   cached digests in node.hash, and the byte encoding of pages. *)
 From Coq Require Import List NArith Bool Sorted.
 Import ListNotations.
-From Verif.model Require Import MerkleTrie MerkleTrieSpec.
-From Verif.proofs Require Import MerkleTrieProofs MerkleTrieCanonProofs.
+From Verif.model Require Import MerkleTrie MerkleTrieSpec MerkleTrieStore MerkleTrieStoreRel.
+From Verif.proofs Require Import MerkleTrieProofs MerkleTrieCanonProofs MerkleTrieHeapProofs
+                                 MerkleTriePagedProofs MerkleTrieStoreRefine MerkleTrieStoreFinal.
 Open Scope N_scope.
 
 (* Every observable result of every history is the one the set semantics prescribes:
@@ -94,6 +102,56 @@ Theorem C17_canonical_shape_unique : forall t1 n t2, wf n t1 -> wf n t2 ->
   (forall k, In k (elems t1) <-> In k (elems t2)) -> t1 = t2.
 Proof. exact wf_unique. Qed.
 Print Assumptions C17_canonical_shape_unique.
+
+(* ---------- the paged store ---------- *)
+
+(* one operation, from any store state that represents a logical state: the new store state
+   represents the new logical state and the results agree (in particular no storage failure) *)
+Theorem C17_store_step_refines : forall npp, 0 < npp <= base_id -> forall s m o s' r,
+  Abs npp s m -> pstep npp true s o = (s', r) -> snd (step m (erase_op o)) <> RPanic -> r <> PBadOracle ->
+  Abs npp s' (fst (step m (erase_op o))) /\ res_rel r (snd (step m (erase_op o))).
+Proof. exact pstep_refines. Qed.
+Print Assumptions C17_store_step_refines.
+
+Theorem C17_store_refines : forall npp ops, 0 < npp <= base_id -> Forall op_ok (map erase_op ops) ->
+  ~ In PBadOracle (snd (prun npp true p_init ops)) ->
+  Abs npp (fst (prun npp true p_init ops)) (fst (run m_init (map erase_op ops))) /\
+  Forall2 res_rel (snd (prun npp true p_init ops)) (snd (run m_init (map erase_op ops))).
+Proof. exact store_refines. Qed.
+Print Assumptions C17_store_refines.
+
+Theorem C17_store_never_fails : forall npp ops, 0 < npp <= base_id -> Forall op_ok (map erase_op ops) ->
+  ~ In PBadOracle (snd (prun npp true p_init ops)) -> ~ In PFail (snd (prun npp true p_init ops)).
+Proof. exact store_never_fails. Qed.
+Print Assumptions C17_store_never_fails.
+
+(* the committed pages contain every node reachable from the committed root (they unfold to the
+   canonical trie of the committed set), for every page size, eviction choice and re-allocation *)
+Theorem C17_committed_pages_closed : forall npp ops, 0 < npp <= base_id -> Forall op_ok (map erase_op ops) ->
+  ~ In PBadOracle (snd (prun npp true p_init ops)) ->
+  let s := fst (prun npp true p_init ops) in
+  let ss := fst (srun s_init (map erase_op ops)) in
+  disk_ok s (canon_set (s_committed ss)) /\ exists fp, live_ok s fp (canon_set (s_cur ss)).
+Proof. exact store_canonical. Qed.
+Print Assumptions C17_committed_pages_closed.
+
+(* the code before fixes/C17.patch (evict without the deferred load of the partially filled tail
+   page): after this history no trie at all is stored below the committed root *)
+Theorem C17_unfixed_evict_refuted :
+  Forall op_ok (map erase_op bad_ops) /\ ~ In PBadOracle (snd (prun 2 false p_init bad_ops)) /\
+  let s := fst (prun 2 false p_init bad_ops) in
+  p_droot s <> 0 /\ ~ exists t fp, repr (p_disk s) t (p_droot s) fp.
+Proof.
+  exact (conj bad_ops_ok (conj (proj1 bad_ops_oracles_admissible) unfixed_evict_loses_committed_nodes)).
+Qed.
+Print Assumptions C17_unfixed_evict_refuted.
+
+(* non-vacuity of the store theorems: the same history with the repaired rule *)
+Example ex_store_fixed :
+  ~ In PBadOracle (snd (prun 2 true p_init bad_ops)) /\
+  committed_trie (fst (prun 2 true p_init bad_ops)) =
+  Some (Some (Node [(0, Node [(0, Node [(0, Leaf []); (1, Leaf [])])]); (1, Leaf [0; 0])])).
+Proof. exact (conj (proj2 bad_ops_oracles_admissible) fixed_evict_on_the_same_history). Qed.
 
 (* ---------- non-vacuity ---------- *)
 Definition ex_ops : list op :=
